@@ -10,6 +10,7 @@ Decided in normal form, not by statement shape:
 """
 from __future__ import annotations
 import ast
+from ..term import pmatch
 from ..model import qual, get_kw
 from ..symx import Expander
 from ..mexp import MExpander
@@ -89,7 +90,19 @@ def _matrix(prog, ci, c2, sm, c, gv, rname):
     if not (isinstance(src, ast.Name) and src.id in params):
         raise Unsupported(f"self.inv_mass is bound to `{U(src) if src is not None else None}`, not to a constructor argument")
     # symmetric only if the constructor demands it
-    symmetric = any(isinstance(s, ast.Assert) and f"{src.id} == {src.id}.T" in U(s.test) for s in init.body)
+    def demands_symmetry(s):
+        """`assert (A == A.T).all()` / `assert allclose(A, A.T)` / `if not (..).all(): raise`: the comparison reduced by a CALL of
+        all() (the bare method object `.all` is always true and demands nothing)."""
+        t = s.test if isinstance(s, ast.Assert) else None
+        if isinstance(s, ast.If) and s.body and isinstance(s.body[-1], ast.Raise) and isinstance(s.test, ast.UnaryOp) and isinstance(s.test.op, ast.Not):
+            t = s.test.operand
+        if t is None:
+            return False
+        a = src.id
+        return any(pmatch(t, pt) is not None for pt in (f"({a} == {a}.T).all()", f"all({a} == {a}.T)", f"({a}.T == {a}).all()",
+                                                          f"allclose({a}, {a}.T)", f"allclose({a}.T, {a})", f"array_equal({a}, {a}.T)",
+                                                          f"allclose({a}, {a}.T, **_)"))
+    symmetric = any(demands_symmetry(s) for s in init.body)
     ndraws = [0]
 
     def hook(ex, node, env):
@@ -134,6 +147,11 @@ def _matrix(prog, ci, c2, sm, c, gv, rname):
         raise Unsupported(f"the Cholesky factor is of `{factor_of}`, not of the metric")
     ok = prod.eq(M.eye()) and not ex.problems
     why = f"draw = ({T}) z, velocity = ({V}) r with L L^T = A: T T^T V = {prod} (must be the identity)"
+    if not symmetric:
+        # velocity A r is the gradient of r.A r / 2 (and the Cholesky factor describes A) only for a symmetric A: the constructor must refuse others
+        ok = False
+        why = (f"the constructor does not demand a symmetric `{src.id}` (no `assert ({src.id} == {src.id}.T).all()` - note the call - or an "
+               f"equivalent raise): for another matrix the velocity is not the gradient of the kinetic energy; " + why)
     if ex.problems:
         why += "; " + "; ".join(ex.problems[:2])
     return ok, why
